@@ -25,6 +25,7 @@ type GenConfig struct {
 	Closes          int  // max graceful shutdowns (Commander.Close with requests in flight, then a restart)
 	UniqueIKPct     int  // percentage of requests carrying an idempotency key of their own (never used before)
 	RevertByRef     bool // reverts may designate their target by the reference it was created under
+	SharedNamePct   int  // percentage of rounds in which one text is the idempotency key of a write sent twice and the reference of a request that comes and goes meanwhile
 	WideBurstPct    int  // percentage of rounds that are 3-5 creates from @world with nothing in common (no account lock, no reference): several entries queue up behind the one being persisted
 	RefBurstPct     int  // percentage of rounds that are a burst of creates from @world with no account lock in common (sharing one reference when there is a reference pool)
 	Cancels         int
@@ -250,6 +251,7 @@ func GenPlan(t *rapid.T, cfg GenConfig) *Plan {
 		o.Barrier = len(p.Ops) - 1
 		o.Meta = map[string]string{"src": rapid.SampledFrom(cfg.Accounts[:2]).Draw(t, "cfgSrc")}
 	}
+	previewInBurst := false
 	rounds := rapid.IntRange(1, cfg.MaxRounds).Draw(t, "rounds")
 	for r := 0; r < rounds; r++ {
 		start := len(p.Ops)
@@ -280,6 +282,36 @@ func GenPlan(t *rapid.T, cfg GenConfig) *Plan {
 			}
 			continue
 		}
+		if cfg.SharedNamePct > 0 && rapid.IntRange(0, 99).Draw(t, "sharedName") < cfg.SharedNamePct {
+			// one text in two roles at the same time: the idempotency key of a write sent twice, and the reference
+			// of another request that comes and goes meanwhile (a preview, or a request the machine refuses)
+			name := rapid.SampledFrom([]string{"k1", "k2", "shared"}).Draw(t, "sharedNameText")
+			w := Op{Kind: OpSaveMeta, Barrier: start, IK: name, TargetType: ledger.MetaTargetTypeAccount, TargetAcc: "cfg2"}
+			if rapid.Bool().Draw(t, "sharedNameCreate") {
+				w = Op{Kind: OpCreate, Barrier: start, IK: name, Grants: map[string]string{}, Script: sendScript("1", cfg.Assets[0], "@world", "@"+cfg.Accounts[0])}
+			}
+			first := add(w)
+			firstTag := first.Tag
+			if first.Kind == OpSaveMeta {
+				first.Meta = map[string]string{"tag": firstTag}
+			}
+			w = *first
+			passer := Op{Kind: OpCreate, Barrier: start, Reference: name, Grants: map[string]string{}}
+			if rapid.Bool().Draw(t, "sharedNamePreview") {
+				passer.DryRun = true
+				passer.Script = sendScript("1", cfg.Assets[0], "@world", "@"+cfg.Accounts[1])
+			} else {
+				passer.Script = sendScript("1000000", cfg.Assets[0], "@nobody", "@"+cfg.Accounts[1]) // refused: no funds
+			}
+			add(passer)
+			again := add(w) // the same request once more
+			if cfg.SameIKIdentical {
+				again.Tag = firstTag
+			} else if again.Kind == OpSaveMeta {
+				again.Meta = map[string]string{"tag": again.Tag}
+			}
+			continue
+		}
 		wide := cfg.WideBurstPct > 0 && rapid.IntRange(0, 99).Draw(t, "wideBurst") < cfg.WideBurstPct
 		if wide || (cfg.RefBurstPct > 0 && rapid.IntRange(0, 99).Draw(t, "refBurst") < cfg.RefBurstPct) {
 			// a pure race on one reference: the requests have no account lock in common, so only the
@@ -305,6 +337,9 @@ func GenPlan(t *rapid.T, cfg GenConfig) *Plan {
 				o.Grants = map[string]string{}
 				o.Script = sendScript(fmt.Sprint(1+i), cfg.Assets[0], "@world", "@"+cfg.Accounts[i%len(cfg.Accounts)])
 				o.DryRun = i == previewAt || (cfg.DryRunPct > 0 && rapid.IntRange(0, 5).Draw(t, "burstPreview") == 0)
+				if o.DryRun && ref != "" {
+					previewInBurst = true
+				}
 			}
 			continue
 		}
@@ -458,6 +493,10 @@ func GenPlan(t *rapid.T, cfg GenConfig) *Plan {
 		p.TickClock = true
 	}
 	p.SlowStore = rapid.IntRange(0, 2).Draw(t, "slowStore") == 0
+	if previewInBurst && rapid.Bool().Draw(t, "slowStoreForBurst") {
+		// a preview in a burst on one reference matters while the real writes of the burst are still unpersisted
+		p.SlowStore = true
+	}
 	p.CacheSize = rapid.SampledFrom([]int{1, 2, 1024}).Draw(t, "cacheSize")
 	return p
 }
